@@ -795,3 +795,111 @@ add('Coordinates.geometric_vsop_pos#own', 'call', CO + 'geometric_vsop_pos', 'pu
     lambda g: (None, _vsop_own(g) + ([g.b()] if g.rng.random() < 0.5 else []), {}), 0.4, 400, 'Coordinates')
 add('Coordinates.apparent_vsop_pos#own', 'call', CO + 'apparent_vsop_pos', 'pure',
     lambda g: (None, _vsop_own(g), {}), 0.3, 5000, 'Coordinates')
+
+
+# ------------------------------------------------------------------ calls that the library must REJECT
+# Histories in which some calls are rejected are still histories: a ValueError/TypeError must leave no
+# trace (O1), and the calls after it must behave as if it had not happened (O2).  No expectation is
+# attached to the outcome of these calls themselves (some generated dates are valid on purpose).
+def _edge_date(g):
+    rng = g.rng
+    y = rng.choice([rng.randint(-3000, 4000), rng.choice([1500, 1600, 1700, 1900, 2000, 2019, 2020, 2024, 2100, -4, -100])])
+    r = rng.random()
+    if r < 0.45:
+        m, d = 2, rng.choice([28, 29, 29, 30, 30, 31])
+    elif r < 0.65:
+        m, d = rng.choice([4, 6, 9, 11]), rng.choice([30, 31, 31])
+    elif r < 0.8:
+        m, d = rng.randint(1, 12), rng.choice([0, 32, -1, 31])
+    else:
+        m, d = rng.choice([0, 13]), rng.randint(1, 28)
+    return y, m, d
+
+
+def _bad_epoch_args(g):
+    y, m, d = _edge_date(g)
+    r = g.rng.random()
+    if r < 0.15:
+        return [g.iv(y), g.iv(m), g.fv(d + 0.5)], {}
+    if r < 0.25:
+        return [g.iv(y), g.iv(max(1, min(12, m))), g.iv(max(1, min(28, d))), g.iv(g.rng.choice([24, 25, -1]))], {}
+    if r < 0.3:
+        return [g.iv(y), g.iv(m)], {}
+    if r < 0.35:
+        return [g.s('2000-01-01')], {}
+    if r < 0.5:
+        return [g.mk([g.iv(y), g.iv(m), g.iv(d)])], {}
+    kw = {}
+    if g.rng.random() < 0.3:
+        kw = {"utc": {"b": True}}
+    return [g.iv(y), g.iv(m), g.iv(d)], kw
+
+
+add('Epoch.__init__#bad', 'new', 'Epoch.Epoch', 'ctor', lambda g: (None,) + _bad_epoch_args(g), 1.5, 100, 'Epoch')
+add('Epoch.check_input_date#bad', 'call', 'Epoch.Epoch.check_input_date', 'pure', lambda g: (None,) + _bad_epoch_args(g),
+    0.8, 100, 'Epoch')
+
+
+def _bad_set(g):
+    r = g.mutable('Epoch')
+    if r is None:
+        return None
+    a, k = _bad_epoch_args(g)
+    return r, a, k
+
+
+add('Epoch.set#bad', 'meth', 'set', 'mutator', _bad_set, 0.6, 100, 'Epoch')
+add('Epoch.get_doy#bad', 'call', 'Epoch.Epoch.get_doy', 'pure',
+    lambda g: (None, [g.iv(x) for x in _edge_date(g)], {}), 0.5, 30, 'Epoch')
+add('Coordinates.mean_obliquity#bad', 'call', CO + 'mean_obliquity', 'pure', lambda g: (None,) + _bad_epoch_args(g), 0.4, 200,
+    'Coordinates')
+add('Angle.__init__#bad', 'new', 'Angle.Angle', 'ctor',
+    lambda g: (None, [g.rng.choice([g.s('12.5'), {"n": None}, g.mk([])])], {}), 0.4, 20, 'Angle')
+
+
+def _bad_interp(g):
+    xs = _xs(g, g.rng.randint(3, 5))
+    xs[-1] = xs[0]
+    ys = [g.rng.uniform(-5, 5) for _ in xs]
+    return None, [g.mk(_fl(g, xs)), g.mk(_fl(g, ys))], {}
+
+
+add('Interpolation.__init__#bad', 'new', I, 'capture', _bad_interp, 0.4, 200, 'Interpolation')
+
+
+def _interp_outside(g):
+    r, rg = _interp_recv(g)
+    if r is None:
+        return None
+    w = rg[1] - rg[0]
+    return r, [g.fv(rg[1] + g.rng.uniform(0.1, 2.0) * w if g.rng.random() < 0.5 else rg[0] - g.rng.uniform(0.1, 2.0) * w)], {}
+
+
+add('Interpolation.__call__#bad', 'op', 'call1', 'pure', _interp_outside, 0.4, 60, 'Interpolation')
+add('Interpolation.derivative#bad', 'meth', 'derivative', 'pure', _interp_outside, 0.3, 60, 'Interpolation')
+
+
+def _far_epoch(g):
+    return g.epv(2451545.0 + 365.25 * g.rng.choice([g.rng.uniform(2100, 3500), g.rng.uniform(-6000, -4100)]))
+
+
+for _p, _f in (('Venus', 'inferior_conjunction'), ('Mercury', 'station_longitude_1'), ('Mars', 'opposition'),
+               ('Jupiter', 'conjunction'), ('Saturn', 'station_longitude_2'), ('Uranus', 'opposition'),
+               ('Neptune', 'conjunction')):
+    _st(_p + '.' + _p, _f + '#bad', None, 0.0, 300, _p)
+    ENTRIES[_p + '.' + _f + '#bad'].target = _p + '.' + _p + '.' + _f
+    ENTRIES[_p + '.' + _f + '#bad'].gen = (lambda g: (None, [_far_epoch(g)], {}))
+    ENTRIES[_p + '.' + _f + '#bad'].weight = 0.12
+_st('Pluto.Pluto', 'geocentric_position#bad', None, 0.3, 200, 'Pluto')
+ENTRIES['Pluto.geocentric_position#bad'].target = 'Pluto.Pluto.geocentric_position'
+ENTRIES['Pluto.geocentric_position#bad'].gen = (
+    lambda g: (None, [g.epv(2451545.0 + 365.25 * g.rng.choice([g.rng.uniform(-116.0, -114.9), g.rng.uniform(99.0, 101.0),
+                                                                  g.rng.uniform(150, 400)]))], {}))
+add('Moon.moon_phase#bad', 'call', MO + '.moon_phase', 'pure',
+    lambda g: (None, [g.ep(-1900, 3900), g.s(g.rng.choice(['gibbous', 'New', '']))], {}), 0.2, 50, 'Moon')
+add('Sun.get_equinox_solstice#bad', 'call', SU + '.get_equinox_solstice', 'pure',
+    lambda g: (None, [g.iv(g.rng.choice([3001, 3500, -1001, -2000])), g.s('spring')], {}) if g.rng.random() < 0.6
+    else (None, [g.i(-900, 2900), g.s('fall')], {}), 0.2, 50, 'Sun')
+add('Epoch.rise_set#bad', 'meth', 'rise_set', 'pure',
+    lambda g: (g.ep(-1999, 3999), [g.angv(g.rng.choice([-1, 1]) * g.rng.uniform(66.6, 89.0)), g.ang(-180, 180)], {}),
+    0.2, 100, 'Epoch')
